@@ -1,7 +1,7 @@
 (* Props/C17.v — filter patterns are validated exactly by the documented glob
    syntax.  Only statements; every proof is [exact <lemma>]. *)
 From Coq Require Import List NArith.
-From AL Require Import Glob.Glob Glob.GlobSpec Glob.GlobFuel Glob.GlobProofs.
+From AL Require Import Glob.Glob Glob.GlobSpec Glob.GlobFuel Glob.GlobProofs Glob.GlobCols.
 Import ListNotations.
 
 (* glob_exact: ValidateRefGlob / ValidatePathGlob (as repaired by
@@ -36,6 +36,33 @@ Print Assumptions C17_ref_implies_path.
 Theorem C17_valid_ref_path : forall pat, valid true pat -> valid false pat.
 Proof. exact valid_ref_path. Qed.
 Print Assumptions C17_valid_ref_path.
+
+(* glob_cols: every reported column lies inside the pattern (0 <= col <=
+   length); when the message names a character and col >= 1, that character is
+   the one at the column; column 0 only for the empty pattern, a leading space
+   of a path, after a line break — or a scan error (NUL / invalid UTF-8), whose
+   column is the known finding C17-scanerr-column. *)
+Theorem C17_glob_cols : forall isRef pat ds d,
+  validate_mode isRef pat = Some ds -> In d ds ->
+  (d_col d <= length pat)%nat /\
+  (forall c, d_named d = NameChar c -> (1 <= d_col d)%nat ->
+     nth_error (runes pat) (d_col d - 1) = Some c) /\
+  (d_col d = 0%nat ->
+     d_cls d = EmptyPat \/ d_cls d = PathLead \/ d_cls d = ScanErr \/ In 10%N (runes pat)).
+Proof. exact glob_cols. Qed.
+Print Assumptions C17_glob_cols.
+
+Theorem C17_path_trail_col : forall pat, hd_is pat 32 = false -> last_is pat 32 = true ->
+  validate_path pat = Some [mkDiag PathTrail (length pat) NoName] /\
+  nth_error pat (length pat - 1) = Some 32%N.
+Proof. exact path_trail_col. Qed.
+Print Assumptions C17_path_trail_col.
+
+Theorem C17_scanerr_col_refuted :
+  exists pat ds d, validate_ref pat = Some ds /\ In d ds /\ d_cls d = ScanErr /\
+    d_col d = 1%nat /\ nth_error pat 0 = Some 97%N /\ nth_error pat 1 = Some 0%N.
+Proof. exact scanerr_col_refuted. Qed.
+Print Assumptions C17_scanerr_col_refuted.
 
 (* glob_fuel: validation terminates for every string — the fuel the wrappers
    supply (length + 1) is never exhausted, in either mode *)
